@@ -274,7 +274,7 @@ Proof.
 Qed.
 Print Assumptions C07_mld2r_junk_free.
 
-(* ---------------------------------------------------------------- round trips of the v2 messages: the query proved, the report stated (tested by correspondence and the C06 oracle) *)
+(* ---------------------------------------------------------------- round trips of the v2 messages: both proved (C06_mld2q_roundtrip, C06_mld2r_roundtrip) *)
 Definition mld_addr_wf (a : list Z) : Prop := zlen a = 16 /\ bytes_ok a.
 Definition mq_wf (l : mldq) : Prop :=
   0 <= q_mrc l < 65536 /\ mld_addr_wf (q_addr l) /\ 0 <= q_qrv l < 8 /\ 0 <= q_qqic l < 256 /\ Forall mld_addr_wf (q_srcs l) /\ mld_cnt (q_srcs l) < 65536.
@@ -378,6 +378,120 @@ Proof.
   split; [repeat constructor; cbn; try lia; try apply Forall_forall; try (intros x Hx; apply repeat_spec in Hx; subst; unfold byte_ok; lia); unfold byte_ok; lia|].
   split; [vm_compute; reflexivity|]. split; [vm_compute; reflexivity|]. vm_compute. intros X. discriminate X.
 Qed.
+
+(* the v2 report round trip, proved: records as fixed by FixLengths (counts set, auxiliary data padded) come back *)
+Definition rec_ok (r : mar) : Prop :=
+  0 <= r_type r < 256 /\ mld_addr_wf (r_addr r) /\ Forall mld_addr_wf (r_srcs r) /\ r_n r = mld_cnt (r_srcs r) /\ r_n r < 65536 /\
+  0 <= r_auxlen r < 256 /\ zlen (r_aux r) = 4 * r_auxlen r.
+Definition rb (r : mar) : list Z := ([r_type r; r_auxlen r] ++ cd_put16 (r_n r) ++ r_addr r) ++ concat (r_srcs r) ++ r_aux r.
+
+Lemma pad_len aux : zlen (mar_pad false aux) mod 4 = 0 /\ zlen aux <= zlen (mar_pad false aux) <= zlen aux + 3.
+Proof.
+  unfold mar_pad. cbv zeta. pose proof (zlen_nonneg aux). destruct (zlen aux mod 4 =? 0) eqn:C; cbv beta iota; [lia|].
+  rewrite zlen_app. assert (R : zlen (repeat 0 (Z.to_nat (4 - zlen aux mod 4))) = 4 - zlen aux mod 4) by (unfold zlen; rewrite repeat_length; lia). rewrite R. lia.
+Qed.
+Lemma fixed_ok r : mar_wf r -> rec_ok (mar_fixed r).
+Proof.
+  intros [Ht [Ha [Hs [Hc [Hb Hl]]]]]. destruct (pad_len (r_aux r)) as [P1 P2]. pose proof (zlen_nonneg (r_aux r)).
+  unfold rec_ok, mar_fixed. cbv zeta. cbn [r_type r_addr r_srcs r_n r_auxlen r_aux].
+  assert (C0 : 0 <= mld_cnt (r_srcs r)) by (unfold mld_cnt; lia).
+  split; [exact Ht|]. split; [exact Ha|]. split; [exact Hs|]. split; [reflexivity|]. split; [exact Hc|]. split; lia.
+Qed.
+Lemma rb_len r : rec_ok r -> zlen (rb r) = 20 + 16 * r_n r + zlen (r_aux r).
+Proof.
+  intros [Ht [[Ha _] [Hs [Hn _]]]]. unfold rb. rewrite !zlen_app, zlen_put16, Ha, (zlen_concat16 _ Hs), !zlen_cons. change (zlen []) with 0. lia.
+Qed.
+
+Lemma mar_ser_fixed junk r : mar_wf r -> mar_ser false true junk r = (Ok (rb (mar_fixed r)), mar_fixed r).
+Proof.
+  intros W. pose proof (fixed_ok r W) as [Ht [[Ha Hab] [Hs [Hn [Hn2 [Hal Hax]]]]]]. destruct W as [_ [_ [_ [Hc _]]]].
+  unfold mar_ser. cbv zeta. set (aux := mar_pad false (r_aux r)) in *. cbn [andb].
+  unfold mar_fixed in *. cbv zeta in *. fold aux in Ht, Ha, Hab, Hs, Hn, Hn2, Hal, Hax |- *. cbn [r_type r_addr r_srcs r_n r_auxlen r_aux] in *.
+  destruct (255 <? zlen aux / 4) eqn:C1; [lia|]. rewrite wrc_full by reflexivity.
+  destruct (65535 <? mld_cnt (r_srcs r)) eqn:C2; [lia|]. rewrite (addrs_wf_closed junk _ Hs).
+  assert (T : mld_to16 (r_addr r) = Some (r_addr r)) by (unfold mld_to16; rewrite Ha; reflexivity). rewrite T.
+  rewrite wrc_full by (cbn [app]; rewrite !zlen_cons, zlen_app, zlen_put16, Ha; lia).
+  rewrite !Z.mod_small by lia. unfold rb. cbn [r_type r_addr r_srcs r_n r_auxlen r_aux]. reflexivity.
+Qed.
+Lemma mr_ser_recs_fixed junk rs : Forall mar_wf rs ->
+  mr_ser_recs false true junk rs = (Ok (concat (map rb (map mar_fixed rs))), map mar_fixed rs).
+Proof.
+  induction 1 as [|r rest W _ IH]; [reflexivity|]. cbn [mr_ser_recs map concat]. rewrite IH, (mar_ser_fixed junk r W). reflexivity.
+Qed.
+
+Lemma mar_decode_rb r tail : rec_ok r -> mar_decode (rb r ++ tail) = (Ok (r, zlen (rb r)), false).
+Proof.
+  intros K. pose proof (rb_len r K) as RL. destruct K as [Ht [[Ha Hab] [Hs [Hn [Hn2 [Hal Hax]]]]]].
+  pose proof (zlen_nonneg tail) as Nt. assert (N0 : 0 <= r_n r) by (rewrite Hn; unfold mld_cnt; lia).
+  remember (rb r ++ tail) as rest eqn:Er. assert (Hr : zlen rest = zlen (rb r) + zlen tail) by (rewrite Er, zlen_app; reflexivity).
+  unfold mar_decode. destruct (zlen rest <? 20) eqn:C; [lia|].
+  rewrite !cd_idx_ok by lia. rewrite cd_rd16_ok by lia. rewrite (cd_slc_ok rest 4) by lia.
+  assert (A0 : nth (Z.to_nat 0) rest 0 = r_type r) by (rewrite Er; reflexivity).
+  assert (A1 : nth (Z.to_nat 1) rest 0 = r_auxlen r) by (rewrite Er; reflexivity).
+  assert (A2 : nth (Z.to_nat 2) rest 0 = (r_n r / 256) mod 256) by (rewrite Er; reflexivity).
+  assert (A3 : nth (Z.to_nat (2 + 1)) rest 0 = r_n r mod 256) by (rewrite Er; reflexivity).
+  rewrite A0, A1, A2, A3. rewrite (cd_put16_be (r_n r)) by lia.
+  assert (La : length (r_addr r) = 16%nat) by (unfold zlen in Ha; lia).
+  assert (S1 : slice rest (Z.to_nat 4) (Z.to_nat 20) = r_addr r).
+  { rewrite Er. unfold rb. rewrite <- !app_assoc. change ([r_type r; r_auxlen r] ++ cd_put16 (r_n r) ++ r_addr r ++ ?x) with (([r_type r; r_auxlen r] ++ cd_put16 (r_n r)) ++ r_addr r ++ x).
+    apply slice_at; [reflexivity|]. change (length ([r_type r; r_auxlen r] ++ cd_put16 (r_n r))) with 4%nat. lia. }
+  rewrite S1.
+  set (pre := [r_type r; r_auxlen r] ++ cd_put16 (r_n r) ++ r_addr r).
+  assert (P : zlen pre = 20) by (unfold pre; rewrite !zlen_app, zlen_put16, !zlen_cons, Ha; change (zlen []) with 0; lia).
+  assert (E : rest = pre ++ concat (r_srcs r) ++ (r_aux r ++ tail)) by (rewrite Er; unfold rb; fold pre; rewrite <- !app_assoc; reflexivity).
+  assert (Tk : mld_take rest 20 (Z.to_nat (r_n r)) = Ok (r_srcs r, true)).
+  { rewrite E, <- P, Hn. unfold mld_cnt. rewrite Nat2Z.id. apply take_concat. exact Hs. }
+  rewrite Tk. pose proof (zlen_concat16 _ Hs) as Zc. rewrite <- Hn in Zc.
+  destruct (zlen rest <? r_auxlen r * 4 + (20 + r_n r * 16)) eqn:C2; [lia|].
+  rewrite cd_slc_ok by lia.
+  assert (S2 : slice rest (Z.to_nat (20 + r_n r * 16)) (Z.to_nat (r_auxlen r * 4 + (20 + r_n r * 16))) = r_aux r).
+  { rewrite E. rewrite (app_assoc pre). apply slice_at; unfold zlen in *; rewrite ?app_length; lia. }
+  rewrite S2. replace (r_auxlen r * 4 + (20 + r_n r * 16)) with (zlen (rb r)) by lia. destruct r; reflexivity.
+Qed.
+
+Lemma mr_loop_rb : forall rs pre, Forall rec_ok rs ->
+  mr_loop (pre ++ concat (map rb rs)) (zlen pre) (length rs) = (rs, zlen pre + zlen (concat (map rb rs)), Ok tt, false).
+Proof.
+  induction rs as [|r rest IH]; intros pre H; [cbn; rewrite Z.add_0_r; reflexivity|].
+  inversion H as [|? ? K Hr]; subst. cbn [map concat length mr_loop].
+  pose proof (zlen_nonneg pre). pose proof (zlen_nonneg (rb r ++ concat (map rb rest))).
+  remember (pre ++ rb r ++ concat (map rb rest)) as data eqn:Ed.
+  assert (Hn : zlen data = zlen pre + zlen (rb r ++ concat (map rb rest))) by (rewrite Ed, zlen_app; reflexivity).
+  rewrite cd_slc_ok by lia.
+  assert (S : slice data (Z.to_nat (zlen pre)) (Z.to_nat (zlen data)) = rb r ++ concat (map rb rest)).
+  { rewrite Ed. apply slice_to_end; [unfold zlen; lia|]. rewrite zlen_app. unfold zlen. lia. }
+  rewrite S, (mar_decode_rb r _ K).
+  assert (E : data = (pre ++ rb r) ++ concat (map rb rest)) by (rewrite Ed; apply app_assoc).
+  assert (Z' : zlen pre + zlen (rb r) = zlen (pre ++ rb r)) by (rewrite zlen_app; reflexivity).
+  rewrite E, Z', (IH (pre ++ rb r) Hr). rewrite !zlen_app. f_equal. f_equal. f_equal. lia.
+Qed.
+
+Theorem C06_mld2r_roundtrip : C06_mld2r_roundtrip_stmt.
+Proof.
+  unfold C06_mld2r_roundtrip_stmt. intros l csum junk bytes l' old W Hc.
+  unfold mr_serialize, mr_serialize_gen. rewrite (mr_ser_recs_fixed junk _ W). cbv zeta.
+  set (rs := map mar_fixed (mr_recs l)). assert (Cn : mld_cnt rs = mld_cnt (mr_recs l)) by (unfold rs, mld_cnt; rewrite map_length; reflexivity).
+  cbn [andb]. destruct (65535 <? mld_cnt rs) eqn:C0; [lia|]. rewrite wrc_full by reflexivity. cbn [mr_n]. intros X.
+  assert (E1 : bytes = ([0;0] ++ cd_put16 (mld_cnt rs)) ++ concat (map rb rs) ++ []) by congruence.
+  assert (E2 : l' = mkMr (mr_contents l) (mr_payload l) (mld_cnt rs) rs) by congruence. clear X. subst l'. split; [reflexivity|].
+  rewrite app_nil_r in E1. set (pre := [0;0] ++ cd_put16 (mld_cnt rs)) in *. assert (P : zlen pre = 4) by reflexivity.
+  assert (K : Forall rec_ok rs) by (unfold rs; apply Forall_forall; intros x Hx; apply in_map_iff in Hx; destruct Hx as [y [<- Hy]]; apply fixed_ok; rewrite Forall_forall in W; apply W; exact Hy).
+  assert (C1 : 0 <= mld_cnt rs) by (unfold mld_cnt; lia). pose proof (zlen_nonneg (concat (map rb rs))) as Nc.
+  assert (Hn : zlen bytes = 4 + zlen (concat (map rb rs))) by (rewrite E1, zlen_app, P; reflexivity).
+  unfold mr_decode_into, mr_decode_gen. cbv zeta. destruct (zlen bytes <? 4) eqn:C; [lia|]. rewrite cd_rd16_ok by lia. cbn [ml_bind].
+  assert (A2 : nth (Z.to_nat 2) bytes 0 = (mld_cnt rs / 256) mod 256) by (rewrite E1; reflexivity).
+  assert (A3 : nth (Z.to_nat (2 + 1)) bytes 0 = mld_cnt rs mod 256) by (rewrite E1; reflexivity).
+  rewrite A2, A3, (cd_put16_be (mld_cnt rs)) by lia.
+  assert (L : mr_loop bytes 4 (Z.to_nat (mld_cnt rs)) = (rs, zlen bytes, Ok tt, false)).
+  { rewrite E1 at 1. rewrite <- P. unfold mld_cnt at 1. rewrite Nat2Z.id. rewrite (mr_loop_rb rs pre K). rewrite Hn, P. reflexivity. }
+  rewrite L. rewrite !cd_slc_ok by lia. cbn [ml_bind app].
+  assert (S1 : slice bytes (Z.to_nat 0) (Z.to_nat (zlen bytes)) = bytes).
+  { unfold slice, zlen. rewrite Nat2Z.id. change (Z.to_nat 0) with 0%nat. cbn [skipn]. apply firstn_all. }
+  assert (S2 : slice bytes (Z.to_nat (zlen bytes)) (Z.to_nat (zlen bytes)) = []).
+  { unfold slice, zlen. rewrite Nat2Z.id. rewrite firstn_all. apply skipn_all. }
+  rewrite S1, S2, Cn. reflexivity.
+Qed.
+Print Assumptions C06_mld2r_roundtrip.
 
 Example Licmp6mld_nonvacuous :
   let q := mkMq [] [] 1000 (repeat 255 16) true 2 125 0 [repeat 1 16; repeat 2 16] in
